@@ -20,6 +20,9 @@ def run(ctx, replay=None):
         kernlib.mc_replay(ctx, "KernelMC_c02.cfg", {'"spawn", "yield"': '"spawn", "spawnnp", "yield"'}, label="KernelMC/c02 2x3 +unprobed spawns")
         kernlib.mc_replay(ctx, "KernelMC_c02.cfg", {"MaxProc = 2": "MaxProc = 3", "MaxOps = 3": "MaxOps = 2", "MaxEv = 8": "MaxEv = 9"},
                           label="KernelMC/c02 3x2")
+        # beyond the exhaustive bound: random deep behaviours of the same specification (TLC -simulate), replayed likewise
+        kernlib.mc_replay(ctx, "KernelMC_c02.cfg", {"MaxProc = 2": "MaxProc = 4", "MaxOps = 3": "MaxOps = 4", "MaxEv = 8": "MaxEv = 22"},
+                          label="KernelMC/c02 simulate 4 procs x 4-5 ops", simulate=4000, depth=400)
         kernlib.gen_validate(ctx, 20000, KINDS)
         kernlib.gen_validate(ctx, 5000, KINDS, max_procs=6, max_ops=8, max_events=40, label="generated-large")
         kernlib.gen_validate(ctx, 15000, KINDS, plan_kinds={"run": 1, "runev": 3}, max_plan=4, label="generated-run-until-event")
